@@ -478,6 +478,8 @@ class MethodMixin:
         return (self.ufun(f'{i}_{method}_g{k}', STR, STR), self.ufun(f'{i}_{method}_n{k}', STR, z3.BoolSort()))
 
     def m_pattern(self, pat, name, args, node):
+        if name == 'sub':
+            return self.b_re_sub([pat] + list(args), {}, node, None)
         if name not in ('match', 'fullmatch', 'search'):
             raise Unsupported(f'Pattern.{name}')
         subj = self.unwrap(args[0], node)
